@@ -528,6 +528,32 @@ def check_reader(p, res, im, fn):
                     % (fkey, ".".join(fields), what), site=fn.where(line))
         else:
             res.ok("SER-3", {"reader": fkey, "field": ".".join(fields), "commit": "after last fallible step"})
+    # in-place mutation of a receiver container (`self.seed.clear()`, `.push(..)`, `.extend_from_slice(..)`, `.resize(..)`): a commit like a field store
+    MUT = ("clear", "push", "extend_from_slice", "extend", "resize", "truncate", "insert", "pop", "remove", "swap_remove", "retain", "drain", "copy_from_slice", "clone_from_slice", "fill", "append")
+    for bi, t in fn.calls():
+        if bi not in g.reach or not t["a"]:
+            continue
+        d = fn.callee_def(t) or {}
+        if d.get("n") not in MUT or not (d.get("p", "").startswith(("std::vec::Vec", "alloc::vec::Vec", "core::slice", "std::slice", "<[")) or "Vec" in d.get("p", "") or "slice" in d.get("p", "")):
+            continue
+        rr = [r for r in flow.op_roots(t["a"][0]) if r[0] == "param" and r[1] == 1 and r[2]]
+        if not rr:
+            fld = field_of(flow, t["a"][0])
+            if fld is None:
+                continue
+            fields = (fld,)
+        else:
+            fields = tuple(x for x in rr[0][2] if not x.isdigit()) or rr[0][2]
+        later = reach_from(bi)
+        bad_after = [b for b, t2 in fallible if b in later]
+        errs_after = [b for b in err_blocks if b in later]
+        if bad_after or errs_after:
+            what = fn.callee_def(fn.blocks[bad_after[0]]["t"])["p"] if bad_after else "return Err"
+            res.bad("SER-3", fkey, "mutate:%s.%s" % (".".join(fields), d.get("n")),
+                    "%s: receiver container `%s` is modified in place (`%s`) before a fallible step (%s): a truncated or corrupt stream leaves it shortened / partly overwritten although the "
+                    "read failed" % (fkey, ".".join(fields), d.get("n"), what), site=fn.where(t["l"]))
+        else:
+            res.ok("SER-3", {"reader": fkey, "container": ".".join(fields), "mutation": d.get("n"), "position": "after last fallible step"})
     for bi, fields, t in delegs:
         later = reach_from(bi)
         bad_after = [b for b, t2 in fallible if b in later and b != bi]
